@@ -256,11 +256,11 @@ def gen_args(rng, tier):
 
 
 def gen_int(rng, tier):
-    hand = ["0", "00", "-0", "+5", " 5 ", "5_0", "_5", "5_", "5__0", "", " ", "-", "+", "+-5", "٣", "1٣", "²", " 5", "5 ", "1 2", "0x1", "1e3", "1.0", "-_1", "+_1", "1_٣", "１２"]
+    hand = ["\x1c1", "1\x1f", "\x0b1", "\x0c1", "\x851", "\xa01", "\u20281", "1\x1c\xa0", "0", "00", "-0", "+5", " 5 ", "5_0", "_5", "5_", "5__0", "", " ", "-", "+", "+-5", "٣", "1٣", "²", " 5", "5 ", "1 2", "0x1", "1e3", "1.0", "-_1", "+_1", "1_٣", "１２"]
     for s in hand:
         yield {"s": s}
     n = 1500 if tier == "quick" else 30000
-    a = "0123456789+-_ \t٣²１x"
+    a = "0123456789+-_ \t٣²１x\x1c\x1f\xa0\x0b"
     for _ in range(n):
         yield {"s": "".join(rng.choice(a) for _ in range(rng.randint(0, 6)))}
 
